@@ -31,7 +31,7 @@ func init() {
 			}
 			return ps
 		},
-		MinObserved: []string{"startups", "dials_after_ready_true", "failing_addresses_checked", "pollers_saw_false_before_true", "served_after_accept_failure_episodes", "served_next_to_silent_tls_peers", "served_while_an_onclose_callback_runs", "served_after_idling_longer_than_the_read_timeout", "served_by_a_second_run_after_a_failed_one", "served_next_to_hundreds_of_idle_connections", "served_after_another_server_on_the_same_mux_was_stopped", "second_runs_of_a_stopped_server_on_a_port_taken_meanwhile"},
+		MinObserved: []string{"startups", "dials_after_ready_true", "failing_addresses_checked", "pollers_saw_false_before_true", "served_after_accept_failure_episodes", "served_after_a_further_run_with_a_malformed_address_had_failed", "served_next_to_silent_tls_peers", "served_while_an_onclose_callback_runs", "served_after_idling_longer_than_the_read_timeout", "served_by_a_second_run_after_a_failed_one", "served_next_to_hundreds_of_idle_connections", "served_after_another_server_on_the_same_mux_was_stopped", "second_runs_of_a_stopped_server_on_a_port_taken_meanwhile"},
 	})
 }
 
@@ -360,6 +360,41 @@ func c17Disturbances(c *Ctx) {
 		}
 		c.Count("served_after_accept_failure_episodes", 1)
 		srv.StopWithin(patience)
+
+		// somebody calls Run once more on the RUNNING server, with an address that is not one (a configuration reload gone
+		// wrong): that call fails, as it must - and the server that is running goes on serving: Ready() is still true and
+		// Stop has not been called
+		if rs, err := startSrv(SrvCfg{}, bindOK); err == nil {
+			bad := []string{"not an address", "127.0.0.1", "[::1]", "", "localhost"}[ep%5] // (every one of them lacks a port)
+			ret := make(chan error, 1)
+			go func() { ret <- rs.S.Run(bad) }()
+			select {
+			case e := <-ret:
+				if e == nil {
+					c.Violate("Run returned nil for an address it cannot listen on", fmt.Sprintf("Run(%q) on a server that is already running", bad), nil)
+				}
+				time.Sleep(time.Duration(ep%4) * time.Millisecond)
+				if rs.S.Ready() {
+					if err := c17Served(rs.Addr, nil, bound); err != nil {
+						returned := false
+						select {
+						case <-rs.runDone:
+							returned = true
+						default:
+						}
+						c.Violate("Ready() was true but a connection attempt failed or was not served", fmt.Sprintf("after a further Run(%q) on the running server had failed (%v): Ready()=true, Stop not called, the first Run returned=%v, yet no new connection is served within %s: %v", bad, e, returned, bound, err), map[string]any{"episode": ep})
+					} else {
+						c.Count("dials_after_ready_true", 1)
+						c.Count("served_after_a_further_run_with_a_malformed_address_had_failed", 1)
+					}
+				} else {
+					c.Count("served_after_a_further_run_with_a_malformed_address_had_failed", 1) // nothing claimed
+				}
+			case <-time.After(bound):
+				c.Inconclusive(fmt.Sprintf("Run(%q) on a running server did not return", bad))
+			}
+			rs.StopWithin(patience)
+		}
 
 		// two servers of one application share one mux (an ldap and an ldaps listener, or a restart on the same routes):
 		// that one of them is stopped says nothing about the other, nor about a later server on the same mux
